@@ -491,6 +491,7 @@ type Notes struct {
 	ControlInOpen       int      // codes below 20h in an open-subtitling text field
 	DanglingDiacritic   int      // diacritic code not followed by a spacing character
 	Other               []string // field-level oddities
+	TNB, TNS            int      // GSI totals as written (number of TTI blocks, number of subtitles)
 }
 
 func trimField(b []byte) string { return strings.TrimRight(string(b), " ") }
@@ -677,7 +678,8 @@ func Decode(b []byte) (Doc, Notes, error) {
 	g.RD = trimField(b[230:236])
 	g.RN = atoiField(b[236:238], "RN", &n)
 	tnb := atoiField(b[238:243], "TNB", &n)
-	_ = atoiField(b[243:248], "TNS", &n)
+	n.TNB = tnb
+	n.TNS = atoiField(b[243:248], "TNS", &n)
 	g.MNC = atoiField(b[251:253], "MNC", &n)
 	g.MNR = atoiField(b[253:255], "MNR", &n)
 	g.TCS = string(b[255:256])
